@@ -6,7 +6,9 @@ S0  safe_names / leaks of the extracted model vs tatsu.util.safeeval.safe_builti
 S1  check (extracted) vs is_eval_safe on generated expression strings x contexts (ast.parse output -> rose tree)
 S2  real evaluation under sys.addaudithook, directly (safe_eval) and through the parser (constant / alert):
     every observed dangerous event must be predicted by the capability semantics (events); predicted-and-observed
-    dangerous capabilities are the recorded builtin leaks; anything reached through reflective attributes is an escape
+    dangerous capabilities are the recorded builtin leaks; anything reached through reflective attributes is an escape;
+    the value of every accepted expression must be its value under context-only name resolution (one namespace = the
+    context at every scope depth, empty __builtins__), also for AST keys spelled like builtins used in nested scopes
 S3  the interpolation loop of ParseContext.constant vs the extracted loop, oracle tables recorded from the real run
 All code of /repo runs in one fresh child interpreter (stdin detached, scratch directory, audit hook).
 """
@@ -110,8 +112,26 @@ from tatsu.exceptions import FailedParse, FailedSemantics
 SB = safeeval.safe_builtins()
 def _f(x):
     return x
-import functools
+import functools, copy, re
+with open('probe.txt', 'w') as _pf:
+    _pf.write('PROBE-CONTENT')
+# AST keys spelled like builtins the filter removed (deny list, types, a few exception names): bound to DATA
+SHADOW_NAMES = sorted(n for n, v in vars(builtins).items()
+                      if not n.startswith('_') and n not in SB and n not in ('True', 'False', 'None')
+                      and not (isinstance(v, type) and issubclass(v, BaseException)))
+SHADOW_NAMES += ['Exception', 'KeyboardInterrupt', 'ValueError']
+SHADOW_SAFE = ['len', 'repr', 'iter']
+def _mkfn(name):
+    def fn(*args, **kw):
+        return 'ctx-' + name
+    fn.__name__ = name
+    fn.__qualname__ = name
+    return fn
+SHADOWFN_NAMES = ['open', 'eval', 'exec', 'compile', 'type', 'getattr', 'input', 'vars']
+FAKES = {n: _mkfn(n) for n in SHADOWFN_NAMES}
 CONTEXTS = {
+    'shadow': lambda: SB | {'a': 'x', 'b': ['x', 'y'], 'p': 'probe.txt'} | {n: 'sh:' + n for n in SHADOW_NAMES + SHADOW_SAFE},
+    'shadowfn': lambda: SB | {'a': 'x', 'b': ['x', 'y'], 'p': 'probe.txt'} | dict(FAKES),
     'const': lambda: SB | {'a': 'x', 'b': ['x', 'y'], 'len': 'shadow', 'type': 'shadowtype'},
     'fixed': lambda: {k: v for k, v in SB.items() if k not in DANGEROUS} | {'a': 'x', 'b': ['x', 'y']},
     'empty': lambda: {},
@@ -167,6 +187,27 @@ def alarm(_s, _f):
     raise Hang('job timeout')
 signal.signal(signal.SIGALRM, alarm)
 
+def canon(sh):
+    return [sh[0], re.sub(r'0x[0-9a-fA-F]+', '0x', sh[1])]
+
+def reference(expr, ctx):
+    """the semantics the checker assumes: ONE namespace = the context, at every scope depth, nothing else reachable
+    (the expression was accepted by the checker of the tree under test; audit recording is off)"""
+    global EVENTS
+    saved, EVENTS = EVENTS, None
+    ns = dict(ctx)
+    ns['__builtins__'] = {}
+    signal.alarm(5)
+    try:
+        return canon(short(eval(expr, ns, ns)))
+    except Hang:
+        return None
+    except BaseException as e:
+        return ['raises', type(e).__name__]
+    finally:
+        signal.alarm(0)
+        EVENTS = saved
+
 def run_direct(job):
     global EVENTS
     ctx = CONTEXTS[job['ctx']]()
@@ -184,6 +225,8 @@ def run_direct(job):
         v = safeeval.safe_eval(expr, ctx)
         res['outcome'] = 'value'
         res['value'] = short(v)
+        signal.alarm(0)
+        res['ref'] = reference(expr, CONTEXTS[job['ctx']]())
     except Hang:
         res['outcome'] = 'timeout'
     except BaseException as e:
@@ -256,12 +299,24 @@ def run_parse(job):
         trace.append(['trim', s, r])
         return r
     def is_eval_safe(e, c):
+        if job.get('keys') and all(k in c and c[k] == 'k' for k in job['keys']):
+            res['keys_in_context'] = True
         r = saved[2](e, c)
         trace.append(['safe', e, bool(r)])
         return r
     def safe_eval(e, c):
         try:
+            c0 = copy.deepcopy(c)
+        except BaseException:
+            c0 = None
+        try:
             v = saved[3](e, c)
+            if c0 is not None:
+                signal.alarm(0)
+                ref = reference(e, c0)
+                signal.alarm(20)
+                if ref is not None and ref != canon(short(v)):
+                    res.setdefault('refdiff', []).append([e, canon(short(v)), ref])
         except Hang:
             raise
         except BaseException as ex:
@@ -272,11 +327,14 @@ def run_parse(job):
     try:
         if job.get('via') == 'text':
             tick = '```' if ('`' not in literal and '\n' in literal) else '`'
-            g = ("start = a:'x' %s%s%s%s b:'y' $ ;" % ('^', tick, literal, tick)) if alert else \
-                ("start = a:'x' b:%s%s%s $ ;" % (tick, literal, tick))
+            # keys: further AST keys (spelled like builtins) bound before the constant, each to the text 'k'
+            keys = job.get('keys') or []
+            kg = ''.join(" %s:'k'" % k for k in keys)
+            g = ("start = a:'x'%s %s%s%s%s b:'y' $ ;" % (kg, '^', tick, literal, tick)) if alert else \
+                ("start = a:'x'%s b:%s%s%s $ ;" % (kg, tick, literal, tick))
             NMODELS[0] += 1
             model = tatsu.compile(g, name='C17t%d' % NMODELS[0])
-            text = 'x y' if alert else 'x'
+            text = 'x' + ' k' * len(keys) + (' y' if alert else '')
             nodes = find_nodes(model, 'Alert' if alert else 'Constant')
             res['grammar_literal'] = nodes[0].literal if nodes else None
         else:
@@ -293,6 +351,7 @@ def run_parse(job):
     try:
         r = model.parse(text)
         res['outcome'] = 'value'
+        res['ast_keys'] = sorted(r) if hasattr(r, 'keys') else None
         if alert:
             res['value'] = ['alert-ok', repr(dict(r))[:200]]
         else:
@@ -393,6 +452,21 @@ def ctx_sx(info) -> str:
     return '(' + ' '.join(rows) + ')'
 
 
+def canon(sh):
+    import re
+    return [sh[0], re.sub(r'0x[0-9a-fA-F]+', '0x', sh[1])]
+
+
+def scope_kinds(expr: str) -> list[str]:
+    try:
+        t = ast.parse(expr, mode='eval')
+    except (ValueError, SyntaxError):
+        return ['unparsable']
+    k = sorted({type(n).__name__ for n in ast.walk(t)
+                if isinstance(n, (ast.Lambda, ast.GeneratorExp, ast.ListComp, ast.SetComp, ast.DictComp))})
+    return k or ['toplevel']
+
+
 def attrs_of(expr: str) -> list[str]:
     try:
         t = ast.parse(expr, mode='eval')
@@ -407,6 +481,22 @@ ATTR_POOL = ['upper', 'x', '_x', '__x', '__class__', '__', '___', '_', 'x__', '_
              'gi_code', 'f_locals', 'format_map', '__call__', '__mro__', '__subclasses__', 'count', 'lower']
 
 ARGS = ['', 'a', "'x'", '1', '[1, 2]', 'a, a', "'1+1'", "a, 'x'", '*b', 'a, k=1', '**{}']
+
+
+def nested_templates(n: str) -> list[str]:
+    """the name n used free inside a NESTED scope (lambda called back by a safe builtin, generator expression, 3.12-inlined
+    and set/dict comprehensions, default values, nesting two deep) whose own variables are context keys (a, b, p), so that
+    the checker accepts whenever n is a context key.  eval() resolves such names through globals -> builtins, not through the
+    locals the checker looked at: the value must still be the context's (or the evaluation fails)."""
+    return [f'next({n} for a in b)', f'next({n}(a) for a in b)', f'next({n}(p) for p in [p])', f'next({n}() for a in b)',
+            f"next({n}('1+1') for a in b)", f'next({n}(p).read() for p in [p])', f'any({n} for a in b)',
+            f'sum(1 for a in b if {n})', f'max(b, key=lambda a: {n}(a))', f'max([p], key=lambda p: len({n}(p).read()))',
+            f'sorted(b, key=lambda a: {n})', f'min(b, key=lambda a, b={n}: b)', f'sorted(b, key=lambda a: {n}.upper())',
+            f'[{n} for a in b]', f'[{n}(a) for a in b]', f'{{a: {n} for a in b}}', f'{{{n} for a in b}}',
+            f'next(next({n} for a in b) for a in b)', f'max(b, key=lambda a: max(b, key=lambda a: {n}(a)))',
+            f"next(f'{{{n}}}' for a in b)", f'next(iter(sorted(b, key=lambda a: {n}(a, a))))',
+            f'next(a for a in b if {n}(a))', f'next({n} for {n} in b)', f'max(b, key=lambda {n}: {n})',
+            f'max(b, key=lambda a: (lambda b: {n})(a))', f'next(a.{n} for a in b)', f'next(({n}, a) for a in b)[0]']
 
 
 def name_templates(n: str, scratch: str) -> list[str]:
@@ -477,14 +567,22 @@ ESCAPES = [
 ]
 
 
-def gen_random_expr(rng, depth, names):
+def gen_random_expr(rng, depth, names, nested=0.0):
     r = rng.random()
     if depth <= 0 or r < 0.25:
         k = rng.random()
         if k < 0.6:
             return rng.choice(names)
         return rng.choice(["'x'", '1', '0', '[1, 2]', "'{}'", 'None', "'{0.__class__}'", '()'])
-    sub = lambda: gen_random_expr(rng, depth - 1, names)
+    sub = lambda: gen_random_expr(rng, depth - 1, names, nested)
+    if nested and rng.random() < nested:
+        # a nested scope that IS entered: its variables are names of the pool, its body is called back / iterated
+        v = rng.choice(names)
+        body = sub()
+        return rng.choice(['next({b} for {v} in [{s}])', 'max([{s}], key=lambda {v}: {b})', 'sorted([{s}], key=lambda {v}: {b})',
+                           'next({v} for {v} in [{s}] if {b})', 'any({b} for {v} in [{s}])', '[{b} for {v} in [{s}]]',
+                           'min([{s}], key=lambda {v}, {w}={w}: {b})', 'next(({b})({v}) for {v} in [{s}])'
+                           ]).format(b=body, v=v, s=sub(), w=rng.choice(names))
     if r < 0.42:
         return f'{sub()}.{rng.choice(ATTR_POOL)}'
     if r < 0.62:
@@ -611,6 +709,25 @@ def run_checker_and_eval(chk: Check, mr: ModelRun, info: dict, scratch: Path, re
             cases.append(('const', e, True))
             if rng.random() < 0.25:
                 cases.append((rng.choice(['fixed', 'empty', 'data', 'alias', 'lambda', 'exc', 'dunderkey']), e, False))
+    # names shadowed by AST keys, used at every scope depth: every builtin name the filter removed is bound to data
+    # ('shadow'), or to a same-named harmless function ('shadowfn'); kept builtins in nested scopes ('const', 'fixed')
+    shadow_keys = [k for k, *_ in info['contexts']['shadow']]
+    shadowfn_keys = [k for k, c, *_ in info['contexts']['shadowfn'] if c and k not in info['safe_builtins']]
+    for n in all_builtin_names:
+        nt = nested_templates(n)
+        if n in shadow_keys and n not in info['safe_builtins']:
+            for e in nt:
+                cases.append(('shadow', e, True))
+            for e in rng.sample(name_templates(n, str(scratch / 'work')), 6):
+                cases.append(('shadow', e, True))
+        else:
+            for e in (nt if n in info['safe_builtins'] else rng.sample(nt, 4)):
+                cases.append((rng.choice(['const', 'fixed']), e, True))
+            for e in rng.sample(nt, 3):
+                cases.append(('shadow', e, True))
+        if n in shadowfn_keys:
+            for e in nt:
+                cases.append(('shadowfn', e, True))
     names = ['a', 'b', 'abs', 'len', 'max', 'next', 'iter', 'open', 'eval', 'exec', 'nope', 'type', 'print', 'sorted',
              'getattr', 'exit', 'x', 'format', 'repr', 'input', 'compile', 'help', 'delattr', 'hash', '__import__']
     nrand = 2500 if chk.quick else 40000
@@ -618,6 +735,12 @@ def run_checker_and_eval(chk: Check, mr: ModelRun, info: dict, scratch: Path, re
         e = gen_random_expr(rng, rng.randint(1, 4), names)
         c = 'const' if rng.random() < 0.6 else rng.choice(list(info['contexts']))
         cases.append((c, e, c in ('const', 'fixed') and rng.random() < (0.5 if chk.quick else 0.3)))
+    # random compositions where every name is a key of the shadowing contexts (so most are accepted and evaluated)
+    snames = ['a', 'b', 'p', 'abs', 'max', 'next', 'sorted', 'min', 'any', 'print', 'len', 'repr', 'iter'] + \
+        [n for n in shadow_keys if n in DANGEROUS or n in ('str', 'list', 'dict', 'int', 'map', 'id', 'dir', 'hasattr')]
+    for _ in range(nrand // 3):
+        e = gen_random_expr(rng, rng.randint(2, 4), snames, nested=0.45)
+        cases.append((rng.choice(['shadow', 'shadow', 'shadowfn', 'const']), e, True))
     seen = set()
     uniq = []
     for c in cases:
@@ -635,6 +758,7 @@ def run_checker_and_eval(chk: Check, mr: ModelRun, info: dict, scratch: Path, re
     m_events = dict(zip(ev_idx, m_events))
     bad_s1 = 0
     n_acc = 0
+    n_ref_bad = 0
     unexplained = 0
     for i, ((c, e, ev), t, rep, mc) in enumerate(zip(cases, trees, replies, m_check)):
         if 'error' in rep:
@@ -669,6 +793,33 @@ def run_checker_and_eval(chk: Check, mr: ModelRun, info: dict, scratch: Path, re
         n_acc += 1
         if t is None:
             continue
+        # ---- oracle: the value is the one of the semantics the checker assumes (every name = its context value)
+        if rep.get('outcome') == 'value' and rep.get('ref') is not None:
+            chk.count('S2.ref.compared')
+            if scope_kinds(e) != ['toplevel']:
+                chk.count('S2.ref.compared.nested_scope')
+            if canon(rep['value']) != rep['ref']:
+                n_ref_bad += 1
+
+                last = {e: rep}
+
+                def bad(s, c=c, last=last):
+                    r = run_child([{'kind': 'direct', 'ctx': c, 'expr': s, 'eval': True}], scratch)[0]
+                    isbad = r['safe'] is True and r.get('outcome') == 'value' and r.get('ref') is not None \
+                        and canon(r['value']) != r['ref']
+                    if isbad:
+                        last[s] = r
+                    return isbad
+                small = shrink_expr(e, bad) if n_ref_bad <= 2 else e
+                rep_small = last[small]
+                how = 'ref-raises' if rep_small['ref'][0] == 'raises' else 'differs'
+                chk.violation(f"oracle:context-semantics:{'+'.join(scope_kinds(small))}:{how}",
+                              f'safe_eval({small!r}) in context {c!r} returns a value that is not the value of the expression '
+                              f'when every name denotes its context entry (a name was resolved outside the context)',
+                              {'oracle': 'S2 reference semantics', 'context': c, 'expr': small, 'original': e,
+                               'impl': rep_small['value'], 'reference': rep_small['ref']})
+        elif str(rep.get('outcome')).startswith('raises:') and 'NameError' in str(rep.get('detail')):
+            chk.count('S2.nested_scope_name_unresolved')
         pred = m_events.get(i)
         invoke = set()
         reach = []
@@ -716,6 +867,10 @@ def run_checker_and_eval(chk: Check, mr: ModelRun, info: dict, scratch: Path, re
                    f'{bad_s1} disagreement(s)')
     chk.obligation('S2:audit events of accepted expressions are predicted by the capability semantics', 'oracle',
                    not any(v['signature'].startswith('escape:unexplained') for v in chk.violations))
+    chk.obligation('S2:values of accepted expressions = values under context-only name resolution (all scope depths)', 'oracle',
+                   n_ref_bad == 0 and chk.dist.get('S2.ref.compared.nested_scope', 0) > 50,
+                   f"{n_ref_bad} difference(s) over {chk.dist.get('S2.ref.compared', 0)} compared values "
+                   f"({chk.dist.get('S2.ref.compared.nested_scope', 0)} with a nested scope)")
     chk.count('S2.accepted_and_evaluated', n_acc)
     chk.sample({'S1': cases[5][1], 'ctx': cases[5][0], 'impl': replies[5]['safe'], 'model': m_check[5] == '1'})
     return cases, replies
@@ -749,7 +904,35 @@ def run_parser(chk: Check, mr: ModelRun, scratch: Path, real_leaks: set):
             jobs.append({'kind': 'parse', 'literal': l, 'via': 'patch', 'alert': True})
         if '`' not in l and l.strip() and l == l.strip() and '\n' not in l:
             jobs.append({'kind': 'parse', 'literal': l, 'via': 'text', 'alert': False})
+    # AST keys spelled like builtins (bound to the text 'k' by the grammar itself), used at top level and in nested scopes
+    knames = [n for n in DANGEROUS if not n.startswith('_')] + ['str', 'list', 'len', 'print', 'id', 'dir', 'map']
+    if chk.quick:
+        knames = [n for n in knames if n in ('open', 'eval', 'type')] + rng.sample([n for n in knames if n not in ('open', 'eval', 'type')], 9)
+    shapes = ['{k}', '{k}(a)', "{k}('1+1')", 'next({k} for a in a)', 'next({k}(a) for a in [a])', 'max([a], key=lambda a: {k}(a))',
+              'sorted([a], key=lambda a: {k})[0]', '[{k} for a in a]', "{{{k}}}{{a}}", "{{next({k}(a) for a in [a])}}",
+              'next({k}(a).read() for a in [a])', "max(['1+1'], key=lambda a: {k}(a) - 2)", 'max([a], key={k})']
+    for kn in knames:
+        for sh in (shapes if not chk.quick else shapes[:1] + rng.sample(shapes[1:], 6)):
+            lit = sh.format(k=kn)
+            jobs.append({'kind': 'parse', 'literal': lit, 'via': 'text', 'alert': rng.random() < 0.3, 'keys': [kn]})
+    jobs.append({'kind': 'parse', 'literal': 'next((open, eval, type) for a in a)', 'via': 'text', 'alert': False,
+                 'keys': ['open', 'eval', 'type']})
     replies = run_child(jobs, scratch)
+    n_keys = sum(1 for j, r in zip(jobs, replies) if j.get('keys') and r.get('keys_in_context'))
+    n_refdiff = 0
+    for job, rep in zip(jobs, replies):
+        for e, got, ref in rep.get('refdiff', []):
+            n_refdiff += 1
+            how = 'ref-raises' if ref[0] == 'raises' else 'differs'
+            inner = e[2:-1] if e.startswith(("f'", 'f"')) else e
+            chk.violation(f"oracle:context-semantics:parser:{'+'.join(scope_kinds(e))}:{how}",
+                          f'the constant {job["literal"]!r} (AST keys a{"".join(", " + k for k in job.get("keys", []))}) evaluates '
+                          f'{e!r} to a value that is not the value of the expression when every name denotes its AST / context entry',
+                          {'oracle': 'S2 parser reference semantics', 'literal': job['literal'], 'keys': job.get('keys'),
+                           'alert': job['alert'], 'via': job['via'], 'evaluated': e, 'impl': got, 'reference': ref})
+    chk.obligation('S2:constants evaluate to their value under context-only name resolution (keys spelled like builtins)', 'oracle',
+                   n_refdiff == 0 and n_keys >= 60, f'{n_refdiff} difference(s); {n_keys} parses with builtin-named AST keys bound')
+    chk.count('S3.keys_bound', n_keys)
     # S3: replay the recorded oracle calls through the extracted loop
     reqs = []
     idx = []
@@ -895,12 +1078,18 @@ def main():
                 'attribute, method, indirect call, lambda default, comprehension target, walrus, f-string, key= callback), fixed '
                 'expressions (dunder / non-dunder attribute chains, nested f-strings, comprehensions, lambdas, syntax errors), random '
                 'compositions over names x attributes x calls x lambdas x comprehensions, in 12 contexts (AST keys shadowing builtins, '
-                'dunder key, lambda, mismatched callable, exception class/instance, partial); accepted ones evaluated under an audit '
+                'dunder key, lambda, mismatched callable, exception class/instance, partial) + 2 shadowing contexts (every builtin name '
+                'the filter removed bound to data / to a same-named harmless function) with the name used free in nested scopes '
+                '(27 shapes: generator expressions, key= lambdas, comprehensions, defaults, two deep; random nested compositions); '
+                'accepted values compared with the value under context-only name resolution; grammars whose own AST keys are '
+                'spelled like builtins (open:, eval:, type:, ...); accepted ones evaluated under an audit '
                 'hook directly and through the parser (constant and alert, literal written in the grammar and patched into the model). '
                 'Non-trivial: the expression parses / the loop made at least one oracle call; distinct by content hash.')
     chk.trusted += ['CPython audit events (open, exec, compile, import, builtins.input, os.*, subprocess.*) observed beneath a '
                     "frame of '<string>' code; sys.stdin replaced by a recorder (exit/quit close it)",
                     'ast.parse -> rose tree conversion (harness/props/c17.py:to_tree); the scan_for_exceptions oracle has_exc',
+                    'reference evaluation eval(expr, ns, ns) with ns = context + empty __builtins__ (child interpreter, only for '
+                    'expressions the checker accepted and that returned a value; reprs compared with addresses masked)',
                     'modelled: safeeval.safe_builtins / _check_safe_eval_cached / check_eval_context, engine.constant loop; the '
                     'capability semantics (Lib/SafeEval.v events) is an abstraction of eval(), tied by S2 only; make_hashable and the '
                     'lru caches are not modelled']
